@@ -164,6 +164,8 @@ def shrink_single(exe, plan, cls, budget=300):
     if os.environ.get("VERIF_FAST_TRIAGE"):      # regression runs over the archive only ask "is it caught": no minimisation
         return plan, 0
     def test_ops(ops):
+        if _past_deadline():
+            return False
         q = dict(plan); q["ops"] = ops
         r = exec_plans(exe, [q])
         return r["cls"] == cls
@@ -171,6 +173,8 @@ def shrink_single(exe, plan, cls, budget=300):
     small = dict(plan); small["ops"] = ops
 
     def test_plan(q):
+        if _past_deadline():
+            return False
         return exec_plans(exe, [q])["cls"] == cls
     small, t2 = simplify_plan(small, test_plan)
     return small, t1 + t2
@@ -183,6 +187,8 @@ def shrink_sequence(exe, plans, cls, budget=300):
     last = plans[-1]
 
     def test_prefix(pre):
+        if _past_deadline():
+            return False
         return exec_plans(exe, list(pre) + [last])["cls"] == cls
     pre, t1 = core.ddmin(plans[:-1], test_prefix, budget) if len(plans) > 1 else ([], 0)
     if pre and test_prefix([]):
@@ -191,6 +197,8 @@ def shrink_sequence(exe, plans, cls, budget=300):
     tests = t1
     for i in range(len(seq)):
         def test_ops(ops, i=i):
+            if _past_deadline():
+                return False
             s2 = copy.deepcopy(seq); s2[i]["ops"] = ops
             return exec_plans(exe, s2)["cls"] == cls
         if len(seq[i]["ops"]) > 1:
@@ -202,8 +210,8 @@ def shrink_sequence(exe, plans, cls, budget=300):
 
 def gate_and_report(prop, exe, plans, cls, detail, tag, info):
     """replay twice in fresh processes; both must give the same class and event-log hash"""
-    r1 = exec_plans(exe, plans, log=True)
-    r2 = exec_plans(exe, plans)
+    r1 = exec_plans(exe, plans, log=True, timeout=900)      # (a livelocking 300-thread witness replays for minutes)
+    r2 = exec_plans(exe, plans, timeout=900)
     if r1["cls"] != cls or r2["cls"] != cls or r1["hash"] != r2["hash"]:
         return None, "replay gate: classes %r/%r hashes %r/%r (wanted %r)" % (r1["cls"], r2["cls"], r1["hash"], r2["hash"], cls)
     replay = {"property": prop, "engine": "hist-sim", "backend": os.path.basename(os.path.dirname(exe)),
@@ -288,7 +296,23 @@ class Batch:
         return [s for r in self.results for s in r.samples]
 
 
+TRIAGE_WALL_S = 480       # minimisation of one witness, all phases together: best effort; a witness whose every replay takes a minute stays big
+_triage_deadline = [None]
+
+
+def _past_deadline():
+    return _triage_deadline[0] is not None and time.time() > _triage_deadline[0]
+
+
 def triage(prop, cand, budget=300):
+    _triage_deadline[0] = time.time() + TRIAGE_WALL_S
+    try:
+        return _triage(prop, cand, budget)
+    finally:
+        _triage_deadline[0] = None
+
+
+def _triage(prop, cand, budget=300):
     """cand from Batch.candidates() -> (status, payload)
     status: 'violation' (payload: replay path, cls, detail, signature) | 'nondeterministic' (payload: text)"""
     b = cand["batch"]
@@ -299,7 +323,7 @@ def triage(prop, cand, budget=300):
         return "nondeterministic", "worker died (%s) with no plan in flight" % cls
     plan = cand.get("plan") or gen_plan(exe, b.prop, b.cfg, b.seed, idx)
     info = {"batch": b.name, "cfg": b.cfg, "seed": b.seed, "index": idx, "worker": cand["worker"], "workers": b.workers}
-    r = exec_plans(exe, [plan])
+    r = exec_plans(exe, [plan], timeout=900)
     if r["cls"] == cls:
         small, tests = shrink_single(exe, plan, cls, budget)
         info["shrink_tests"] = tests; info["ops_before"] = len(plan["ops"]); info["ops_after"] = len(small["ops"])
@@ -318,7 +342,7 @@ def triage(prop, cand, budget=300):
     path, err = gate_and_report(prop, exe, plans, cls, cand.get("detail", ""), "%s-%d" % (b.cfg, idx), info)
     if err:
         return "nondeterministic", err
-    rr = exec_plans(exe, plans)
+    rr = exec_plans(exe, plans, timeout=900)
     return "violation", {"replay": path, "cls": cls, "detail": rr["detail"] or cand.get("detail", ""), "signature": signature_of(plans, cls), "plans": plans, "exe": exe}
 
 
